@@ -13,6 +13,13 @@ from .facts import walk, strip, loc_str, strip_tmpl
 from .asmsem import ZPoly, World, ZERO, ONE, big, Unsupported
 
 
+class NeedFork(Exception):
+    """an undecided comparison is needed as a value: the statement is re-executed once per outcome"""
+
+    def __init__(self, cmp):
+        self.cmp = cmp
+
+
 class Path:
     """one abstract state"""
 
@@ -21,6 +28,7 @@ class Path:
         self.bits = {}       # carry/borrow atom -> 0/1
         self.rels = []       # (x poly, y poly, set of relations) facts from forked word comparisons
         self.trace = []      # human-readable branch decisions
+        self.forced = {}     # (op, x, y) -> bool: comparisons the path has forked on
 
     def fork(self):
         p = Path()
@@ -28,10 +36,11 @@ class Path:
         p.bits = dict(self.bits)
         p.rels = list(self.rels)
         p.trace = list(self.trace)
+        p.forced = dict(self.forced)
         return p
 
     def same_as(self, o):
-        return self.mem == o.mem and self.rels == o.rels
+        return self.mem == o.mem and self.rels == o.rels and self.forced == o.forced
 
 
 class Frame:
@@ -147,8 +156,8 @@ class CppMachine:
                     self.splits[key] = r
                     return r
         # syntactic shortcut: v = a + 2^bits * b with a in range
-        hn = self.world.new('h', 'hi', 0, hi_ >> bits)
-        ln = self.world.new('l', 'lo', 0, (1 << bits) - 1, defn=v - ZPoly.var(hn) * (1 << bits), partner=hn)
+        hn = self.world.new('h', 'hi', 0, hi_ >> bits, weight=1 << bits)
+        ln = self.world.new('l', 'lo', 0, (1 << bits) - 1, defn=v - ZPoly.var(hn) * (1 << bits), partner=hn, weight=1 << bits)
         self.world.atoms[hn]['partner'] = ln
         r = (ZPoly.var(ln), ZPoly.var(hn))
         self.splits[key] = r
@@ -165,13 +174,13 @@ class CppMachine:
             return v
         if lo_ >= 0:
             if hi_ < 2 * m:
-                kn = self.world.new('k', 'carry', 0, 1)
+                kn = self.world.new('k', 'carry', 0, 1, weight=m)
                 vn = self.world.new('v', 'val', 0, m - 1, defn=v - ZPoly.var(kn) * m)
                 self.world.atoms[kn]['comp'] = vn
                 return ZPoly.var(vn)
             return self.trunc(v, bits)
         if hi_ < m and lo_ >= -m:
-            bn = self.world.new('b', 'borrow', 0, 1)
+            bn = self.world.new('b', 'borrow', 0, 1, weight=m)
             vn = self.world.new('v', 'val', 0, m - 1, defn=v + ZPoly.var(bn) * m)
             self.world.atoms[bn]['comp'] = vn
             return ZPoly.var(vn)
@@ -199,6 +208,9 @@ class CppMachine:
         """truth value of x op y as a 0/1 polynomial when the bit atoms decide it, else None.  The difference is expanded
         through the defining identities one atom at a time, newest first: too little expansion hides the relation between a
         sum and its addend, too much loses the range of intermediate words"""
+        fk = (op, x, y)
+        if fk in st.p.forced:
+            return ZPoly.const(1 if st.p.forced[fk] else 0)
         D = self.subst(st, x - y)
         for depth in range(0, 40):
             r = self._decide_at(op, D)
@@ -426,6 +438,9 @@ class CppMachine:
                 if c.is_const():
                     return a if c.const_value() else b
                 return c * a + (ONE - c) * b
+            cv = self.eval(st, e['c'])
+            if isinstance(cv, tuple) and cv[0] == 'cmp':
+                raise NeedFork(cv)
             raise Unsupported('conditional expression on run-time data at %s' % loc_str(e))
         if k == 'un':
             if e['op'] == '-':
@@ -583,6 +598,27 @@ class CppMachine:
     def exec(self, st, s):
         if s is None or st.fr.returned:
             return [st]
+        if s.get('k') in ('expr', 'decl', 'return'):
+            try:
+                snap = st.fork()
+                return self.exec1(st, s)
+            except NeedFork as nf:
+                _, op, a, b = nf.cmp
+                outs = []
+                for val in (True, False):
+                    s2 = snap.fork()
+                    s2.p.forced[(op, a, b)] = val
+                    rel = {'<': {'lt'}, '<=': {'lt', 'eq'}, '>': {'gt'}, '>=': {'gt', 'eq'}, '==': {'eq'}, '!=': {'lt', 'gt'}}[op]
+                    if not val:
+                        rel = {'lt', 'eq', 'gt'} - rel
+                    s2.p.rels.append((a, b, frozenset(rel)))
+                    s2.p.trace.append('%s %s at %s' % (op, 'holds' if val else 'fails', loc_str(s)))
+                    if self.rels_consistent(s2):
+                        outs += self.exec(s2, s)
+                return outs
+        return self.exec1(st, s)
+
+    def exec1(self, st, s):
         self.steps += 1
         if self.steps > 2000000:
             raise Unsupported('too many steps')
@@ -841,7 +877,7 @@ def _extern_summary(self, st, name, args, e):
             if lo_ >= 0:
                 v, c = tot, ZERO
             else:
-                bn = self.world.new('b', 'borrow', 0, 1)
+                bn = self.world.new('b', 'borrow', 0, 1, weight=self.W)
                 vn = self.world.new('v', 'val', 0, self.W - 1, defn=tot + ZPoly.var(bn) * self.W)
                 self.world.atoms[bn]['comp'] = vn
                 v, c = ZPoly.var(vn), ZPoly.var(bn)
@@ -851,7 +887,7 @@ def _extern_summary(self, st, name, args, e):
             if hi_ < self.W:
                 v, c = tot, ZERO
             else:
-                kn = self.world.new('k', 'carry', 0, 1)
+                kn = self.world.new('k', 'carry', 0, 1, weight=self.W)
                 vn = self.world.new('v', 'val', 0, self.W - 1, defn=tot - ZPoly.var(kn) * self.W)
                 self.world.atoms[kn]['comp'] = vn
                 v, c = ZPoly.var(vn), ZPoly.var(kn)
@@ -1000,6 +1036,30 @@ class CppResult:
             if lo >= 0 and rel <= {'eq', 'gt'}:
                 return 'ge', 'compare says at least (plus a possible carry)'
             why = 'the compare facts concern other values than value - modulus (difference %r)' % delta
+        # a carry bit known to be 1: follow its addition chain downwards; X == (chain value) + 2^(chain width) means X >= 2^(wn) > P
+        for a, val in self.st.p.bits.items():
+            at = self.w.atoms.get(a) or {}
+            if val != 1 or at.get('kind') != 'carry' or at.get('comp') is None:
+                continue
+            chain = []
+            cur = a
+            for _ in range(64):
+                v = self.w.atoms[cur]['comp']
+                chain.append((v, self.w.weight(cur)))
+                nxt = [b for b in self.w.atoms[v]['defn'].atoms() if b != cur and self.w.atoms[b]['kind'] == 'carry' and self.w.atoms[b].get('comp') is not None
+                       and self.w.atoms[v]['defn'].t.get(((b, 1),), 0) == 1]
+                if len(nxt) != 1:
+                    break
+                cur = nxt[0]
+            chain.reverse()
+            S = ZPoly()
+            wgt = 1
+            for (v, wv) in chain:
+                S = S + ZPoly.var(v) * wgt
+                wgt *= wv
+            d = self.x(X) - self.x(S)
+            if wgt >= lim and d.is_const() and d.const_value() >= lim:
+                return 'ge', 'the carry out of the addition chain is set (value >= 2^%d > modulus)' % (self.n * self.m.wordbits)
         # a known carry alone: X = (n-word value) + 2^(wn)
         for cand in [self.res]:
             if all(v is not None for v in cand):
